@@ -186,6 +186,10 @@ impl NumericParser {
         if self.is_first_digit {
             return false;
         }
+        if self.tmp.has_point() {
+            // no thousands separator inside the fraction: "1.5,000"
+            return false;
+        }
         if !self.has_comma {
             return self.digit_length <= 3 && !self.tmp.is_zero() && !self.tmp.is_all_zero;
         }
